@@ -4,7 +4,6 @@ import (
 	"fmt"
 	"os"
 	"path/filepath"
-	"sync"
 )
 
 // Loader defines the interface for template loading
@@ -29,10 +28,6 @@ type FileSystemLoader struct {
 	paths        []string
 	suffix       string
 	defaultPaths []string
-	// Stores paths for each loaded template to avoid repeatedly searching for the file
-	templatePaths map[string]string
-	// Guards templatePaths: one loader serves concurrent Load calls
-	mu sync.Mutex
 }
 
 // ArrayLoader loads templates from an in-memory array
@@ -62,32 +57,36 @@ func NewFileSystemLoader(paths []string) *FileSystemLoader {
 	}
 
 	return &FileSystemLoader{
-		paths:         normalizedPaths,
-		suffix:        ".twig",
-		defaultPaths:  defaultPaths,
-		templatePaths: make(map[string]string),
+		paths:        normalizedPaths,
+		suffix:       ".twig",
+		defaultPaths: defaultPaths,
 	}
 }
 
 // Load loads a template from the file system
 func (l *FileSystemLoader) Load(name string) (string, error) {
-	// Check if we already know the location of this template
-	if filePath, ok := l.knownPath(name); ok {
-		// Check if file still exists at this path
-		if _, err := os.Stat(filePath); err == nil {
-			// Read file content
-			content, err := os.ReadFile(filePath)
-			if err != nil {
-				return "", fmt.Errorf("error reading template %s: %w", name, err)
-			}
+	// The search paths are asked in order every time and the first that has the file
+	// wins. (The loader used to remember where it had found a name; it then kept serving
+	// that file after the template had appeared in an earlier search path, and after
+	// SetSuffix.)
+	filePath, _, ok := l.findFile(name)
+	if !ok {
+		return "", fmt.Errorf("%w: %s", ErrTemplateNotFound, name)
+	}
+	verifYield("fsloader.betweenStatAndMemo")
 
-			return string(content), nil
-		}
-		// If file doesn't exist anymore, remove from cache and search again
-		l.forgetPath(name)
+	// Read file content
+	content, err := os.ReadFile(filePath)
+	if err != nil {
+		return "", fmt.Errorf("error reading template %s: %w", name, err)
 	}
 
-	// Check each path for the template
+	return string(content), nil
+}
+
+// findFile returns the file that holds a template: the one in the first search path
+// that has it
+func (l *FileSystemLoader) findFile(name string) (string, os.FileInfo, bool) {
 	for _, path := range l.paths {
 		filePath := filepath.Join(path, name)
 
@@ -97,44 +96,11 @@ func (l *FileSystemLoader) Load(name string) (string, error) {
 		}
 
 		// Check if file exists
-		if _, err := os.Stat(filePath); err == nil {
-			verifYield("fsloader.betweenStatAndMemo")
-			// Save the path for future lookups
-			l.rememberPath(name, filePath)
-
-			// Read file content
-			content, err := os.ReadFile(filePath)
-			if err != nil {
-				return "", fmt.Errorf("error reading template %s: %w", name, err)
-			}
-
-			return string(content), nil
+		if info, err := os.Stat(filePath); err == nil {
+			return filePath, info, true
 		}
 	}
-
-	return "", fmt.Errorf("%w: %s", ErrTemplateNotFound, name)
-}
-
-// knownPath returns the remembered file path of a template
-func (l *FileSystemLoader) knownPath(name string) (string, bool) {
-	l.mu.Lock()
-	defer l.mu.Unlock()
-	filePath, ok := l.templatePaths[name]
-	return filePath, ok
-}
-
-// rememberPath stores the file path of a template for later lookups
-func (l *FileSystemLoader) rememberPath(name, filePath string) {
-	l.mu.Lock()
-	defer l.mu.Unlock()
-	l.templatePaths[name] = filePath
-}
-
-// forgetPath drops the remembered file path of a template
-func (l *FileSystemLoader) forgetPath(name string) {
-	l.mu.Lock()
-	defer l.mu.Unlock()
-	delete(l.templatePaths, name)
+	return "", nil, false
 }
 
 // Exists checks if a template exists in the file system
@@ -164,40 +130,11 @@ func (l *FileSystemLoader) SetSuffix(suffix string) {
 
 // GetModifiedTime returns the last modification time of a template file
 func (l *FileSystemLoader) GetModifiedTime(name string) (int64, error) {
-	// If we already know where this template is, check that path directly
-	if filePath, ok := l.knownPath(name); ok {
-		info, err := os.Stat(filePath)
-		if err != nil {
-			// If file doesn't exist anymore, remove from cache
-			if os.IsNotExist(err) {
-				l.forgetPath(name)
-			}
-			return 0, err
-		}
-
-		return info.ModTime().Unix(), nil
+	_, info, ok := l.findFile(name)
+	if !ok {
+		return 0, fmt.Errorf("%w: %s", ErrTemplateNotFound, name)
 	}
-
-	// Otherwise search for the template
-	for _, path := range l.paths {
-		filePath := filepath.Join(path, name)
-
-		// Add suffix if not already present
-		if !hasSuffix(filePath, l.suffix) {
-			filePath = filePath + l.suffix
-		}
-
-		// Check if file exists
-		info, err := os.Stat(filePath)
-		if err == nil {
-			// Save the path for future lookups
-			l.rememberPath(name, filePath)
-
-			return info.ModTime().Unix(), nil
-		}
-	}
-
-	return 0, fmt.Errorf("%w: %s", ErrTemplateNotFound, name)
+	return info.ModTime().Unix(), nil
 }
 
 // NewArrayLoader creates a new array loader
